@@ -35,7 +35,8 @@ def runs(draw, tier):
          "saver": draw(st.one_of(st.none(), st.fixed_dictionaries({"period": st.integers(1, 4), "initial": st.booleans(),
                                                                   "metadata": st.sampled_from(["none", "dict", "callable"]), "only": st.booleans()}))),
          "logger": draw(st.one_of(st.none(), st.fixed_dictionaries({"period": st.integers(1, 4), "custom": st.booleans()}))),
-         "second_run": draw(st.booleans()), "log": draw(st.booleans()), "stop_in_batch": draw(st.booleans())}
+         "second_run": draw(st.booleans()), "log": draw(st.booleans()), "stop_in_batch": draw(st.booleans()),
+         "inspect_after_clear": draw(st.booleans()), "second_len": draw(st.sampled_from(["same", "fixed3"]))}
     return c
 
 
@@ -237,16 +238,21 @@ def check(c):
         if c["second_run"] and (mes or oe is not None):
             for m in mes:
                 m[3].clear_history()
-                require(len(m[3]) == 0 and m[3].last == {} and list(m[3].epochs) == [], "metric:clear_history", "clear_history left records behind")
+                if c.get("inspect_after_clear", True):      # looking at the empty evaluator is itself a step of the history: not always taken
+                    require(len(m[3]) == 0 and m[3].last == {} and list(m[3].epochs) == [], "metric:clear_history", "clear_history left records behind")
             if oe is not None:
                 oe.clear_history()
-                require(len(oe) == 0 and oe.last == {} and list(oe.epochs) == [], "observable:clear_history", "clear_history left records behind")
+                if c.get("inspect_after_clear", True):
+                    require(len(oe) == 0 and oe.last == {} and list(oe.epochs) == [], "observable:clear_history", "clear_history left records behind")
             if saver:
                 cbs.remove(saver)
             c2 = c["stop_at"]
             c["stop_at"] = None
             try:
-                ran2 = one_run(c["E"] + 1, c["E"] + 3)
+                # second run over a DIFFERENT epoch range; optionally of the same length as the first (same number of evaluations)
+                L2 = max(1, len(ran)) if c.get("second_len") == "same" else 3
+                base2 = c["E"] + 1 if c.get("second_len") != "same" or not ran else ran[-1] + 1 + (ran[0] % 2)
+                ran2 = one_run(base2, base2 + L2 - 1)
             finally:
                 c["stop_at"] = c2
             verify_metrics(ran2, rows_before)
